@@ -10,7 +10,10 @@
    [COp]     a session on the real operator: its task handler executing heads of queues (the
              harness plays the queue worker) and the real admission / conversion event handlers
              running their queue-less tasks, real hook processes recording their context files
-             (part 3).
+             (part 3); since seeded change C07-6 also sessions whose queues hold the real
+             Synchronization tasks of kubernetes bindings (made by the real EnableKubernetesBindings
+             task on a fake cluster; v0 and v1 hooks, with and without group and
+             executeHookOnSynchronization), followed by kubernetes Event and schedule tasks.
    Evaluated by vm_compute in the generated cases files. *)
 From Verif Require Import Common C07_Model C07_Spec.
 
@@ -24,6 +27,10 @@ Definition T (id hook ty : N) (meta : bool) (cs : list ctx) (mids : list N) : ta
   mkTask id hook ty meta cs mids 1.
 Definition TQ := mkTask.
 Definition C := mkCtx.
+(* class op: the full task (kubernetes binding type, HookMetadata.Group, ExecuteOnSynchronization)
+   and a Synchronization context *)
+Definition TG := mkTaskK.
+Definition CS (tag group : N) : ctx := mkCtxK tag group true.
 Definition R := mkRun.
 
 Definition res_eqb (a b : list ctx * list N) : bool :=
@@ -45,21 +52,21 @@ Definition model_obs (c : case) : mobs :=
   match c with
   | mkCase i _ _ => MObs (run_model i)
   | CSet i _ _ => MSet (run_set i)
-  | COp i _ => MOp (run_session (oi_qs i) (oi_steps i))
+  | COp i _ => MOp (run_session (oi_v0 i) (oi_qs i) (oi_steps i))
   end.
 
 Definition agrees (c : case) : bool :=
   match c with
   | mkCase i a b => obs_eqb (run_model i) a && obs_eqb (run_model i) b
   | CSet i a b => sobs_eqb (run_set i) a && sobs_eqb (run_set i) b
-  | COp i o => list_eqb ostepobs_eqb (run_session (oi_qs i) (oi_steps i)) o
+  | COp i o => list_eqb ostepobs_eqb (run_session (oi_v0 i) (oi_qs i) (oi_steps i)) o
   end.
 
 Definition holds (c : case) : bool :=
   match c with
   | mkCase i a b => P i a && P i b
   | CSet i a b => P_set i a && P_set i b
-  | COp i o => P_session (oi_qs i) (oi_steps i) o
+  | COp i o => P_session (oi_v0 i) (oi_qs i) (oi_steps i) o
   end.
 
 Definition mismatches (cs : list case) : list N := indices_where (fun c => negb (agrees c)) cs.
